@@ -1,4 +1,5 @@
 #![allow(dead_code)]
+mod c01;
 mod c02;
 mod c04;
 mod voicegen;
@@ -19,6 +20,8 @@ fn main() {
     }
     let n = |i: usize| -> usize { a.get(i).and_then(|s| s.parse().ok()).unwrap_or_else(|| die("bad numeric argument")) };
     match a[1].as_str() {
+        "c01-record" => c01::record(n(2) as u64, n(3), n(4), &a[5], &a[6..]),
+        "c01-replay" => c01::replay(&a[2], &a[3], &a[4]),
         "c02-replay" => c02::replay(&a[2], &a[3]),
         "c02-record" => c02::record(n(2) as u64, n(3), n(4), &a[5]),
         "c04-replay" => c04::replay(&a[2], &a[3], &a[4]),
